@@ -73,9 +73,18 @@ type SpecFunc struct {
 	Body   Expr // nil => uninterpreted
 }
 
+type Axiom struct {
+	PkgPath string
+	Text    string
+	E       Expr
+	File    string
+	Line    int
+}
+
 type Contracts struct {
 	Funcs   map[string]*FuncContract
 	Specs   map[string]*SpecFunc
+	Axioms  []*Axiom
 	Assumes []string // textual record of every 'trusted'/'assume'
 }
 
@@ -88,7 +97,7 @@ var tagRe = regexp.MustCompile(`^\[([A-Za-z0-9_, ]+)(?::([A-Za-z0-9_\-\.]+))?\]\
 var keywords = map[string]bool{
 	"func": true, "props": true, "requires": true, "ensures": true, "modifies": true,
 	"loop": true, "invariant": true, "decreases": true, "inline": true, "trusted": true,
-	"pure": true, "unroll": true, "spec": true, "package": true, "noterm": true, "assert": true,
+	"pure": true, "unroll": true, "spec": true, "package": true, "noterm": true, "assert": true, "axiom": true,
 }
 
 // LoadFile parses a contract file. pkgPath is the default package path
@@ -160,6 +169,13 @@ func (cs *Contracts) LoadFile(path string, pkgPath string, external bool) error 
 			}
 			cs.Funcs[fc.Key] = fc
 			cur, curLoop = fc, nil
+		case "axiom":
+			e, err := ParseExpr(rest)
+			if err != nil {
+				return errf("%v", err)
+			}
+			cs.Axioms = append(cs.Axioms, &Axiom{PkgPath: pkgPath, Text: rest, E: e, File: path, Line: l.line})
+			cur, curLoop = nil, nil
 		case "spec":
 			sf, err := parseSpec(rest)
 			if err != nil {
